@@ -116,6 +116,13 @@ fn apply_structural(u: &mut Universe, s: &[Structural]) -> Vec<WQ> {
                     });
                 }
                 extra_questions.push(WQ { name: apex.child(b"loop0"), qtype: T_A, qclass: 1 });
+                // odd loops are served by servers that put the whole chain into one reply
+                if n % 2 == 1 {
+                    u.zones[zi].chases = true;
+                }
+                // an alias that leads INTO the loop without being part of it
+                u.zones[zi].recs.push(ZRec { owner: apex.child(b"into"), wild: false, rtype: T_CNAME, data: WData::Name(apex.child(b"loop0")), ttl: 300 });
+                extra_questions.push(WQ { name: apex.child(b"into"), qtype: T_A, qclass: 1 });
             }
             Structural::LongChain(i, len) => {
                 let zi = (*i as usize) % u.zones.len();
